@@ -128,6 +128,10 @@ func c05Scenarios(tier string) []*Scenario {
 			sc.Name = "precancelled|" + rpcName(one) + " >> " + rpcName(one)
 			out = append(out, sc)
 		}
+		// unary handlers that send their headers and then try to set more (refused), or send them twice
+		for _, h := range [][]string{{"dec", "H:a", "h:b", "ret:ok"}, {"dec", "H:a", "H:b", "t:c", "ret:ok"}, {"dec", "h:a", "H:b", "h:c", "ret:st:5"}} {
+			add(tr, "", false, RPC{Kind: "unary", Client: []string{"I"}, Handler: h}, "")
+		}
 		// CloseSend from two goroutines at once, also while a SendMsg is held back
 		add(tr, "", false, RPC{Kind: "bd", Client: []string{"S0", "C", "R*"}, Client2: []string{"C"}, Handler: []string{"r*", "s0", "ret:ok"}}, "misuse")
 		if tr == "inproc" {
